@@ -404,6 +404,73 @@ pub fn run_churn(ctx: &Ctx) {
     );
 }
 
+/// per-worker bound: worker pools configured with a small capacity, many connections holding unfinished state at once
+pub fn run_pool_memory(ctx: &Ctx) {
+    use crate::pool::{run_pool, PoolCfg, PoolKind};
+    let per_conn = ctx.tier.pick(24usize, 60);
+    // (pool, shape, connections, capacity, workers, batch)
+    let combos: Vec<(PoolKind, Shape, usize, usize, usize, usize)> = vec![
+        (PoolKind::Tls, Shape::HugeDeclaredRecord, 40, 2, 1, 32),
+        (PoolKind::Tls, Shape::HugeDeclaredRecord, 40, 2, 1, 1),
+        (PoolKind::Tls, Shape::HugeDeclaredRecord, 48, 3, 4, 64),
+        // HTTP: a shape outside the recorded finding K-C11-http (the request is reported, the body is not kept)
+        (PoolKind::Http, Shape::RequestThenEndlessBody, 40, 2, 1, 32),
+        (PoolKind::Http, Shape::RequestThenEndlessBody, 48, 3, 4, 8),
+        (PoolKind::Tcp, Shape::TimestampedAcks, 64, 2, 2, 16),
+    ];
+    ctx.run_indexed(
+        "pool-memory-per-worker",
+        "worker pools (TLS, HTTP, TCP) configured with a capacity of 2..3 connections per worker, 1..4 workers, batch sizes 1..64, fed 40..64 interleaved connections that each keep per-connection state (an unfinished TLS record; a reported request followed by an endless body; timestamped segments), the result channel being drained while the pool runs; oracle: process-wide counting allocator sampled when every packet has been analysed and before shutdown - retained bytes with 40..48 connections <= retained bytes with `capacity` connections (the pool's fixed costs) + workers x capacity x 96 KiB + 128 KiB; runs alone (the counter is process-wide); non-trivial: every configuration",
+        true,
+        1,
+        |_i, st| {
+            for (kind, shape, conns, cap, workers, batch) in combos.iter().copied() {
+                st.evals += 1;
+                st.nontrivial(&(format!("{:?}", kind), shape, conns, cap, workers, batch));
+                // two runs: as many connections as one worker may hold (fixed costs of the pool: processors, tables, channels), then many more
+                let measure_pool = |n_conn: usize| -> Result<Option<i64>, String> {
+                    let mut gens: Vec<ShapeGen> = (0..n_conn).map(|c| ShapeGen::new(shape, c as u16, 1400, ctx.seed)).collect();
+                    let mut frames: Vec<Vec<u8>> = vec![];
+                    for _ in 0..per_conn {
+                        for g in gens.iter_mut() {
+                            frames.push(g.next());
+                        }
+                    }
+                    // the same queue size in both runs (a bounded channel may pre-allocate its slots)
+                    let cfg = PoolCfg { workers, queue: conns * per_conn + 16, batch, timeout_ms: 5, dispatchers: 1, perturb: None, max_sleep_us: 0, max_conn: cap };
+                    let _ = crate::props::c15::arc_db();
+                    crate::alloc::global_enable(true);
+                    let base = crate::alloc::global_live();
+                    let run = run_pool(kind, &frames, &cfg, None, None);
+                    crate::alloc::global_enable(false);
+                    let run = run?;
+                    if run.drain_timeout || run.worker_panic.is_some() {
+                        return Ok(None);
+                    }
+                    Ok(Some(run.live_at_quiescence.unwrap_or(base) - base))
+                };
+                let (few, many) = match (measure_pool(cap), measure_pool(conns)) {
+                    (Ok(Some(a)), Ok(Some(b))) => (a, b),
+                    (Err(e), _) | (_, Err(e)) => {
+                        st.fail(Fail::new("pool:new", e), json!({}));
+                        continue;
+                    }
+                    _ => {
+                        st.discards += 1;
+                        continue;
+                    }
+                };
+                let bound = few + (workers * cap) as i64 * 96 * 1024 + 128 * 1024;
+                let detail = format!("{:?} pool, {workers} worker(s), capacity {cap}, batch {batch}, segments of 1400 bytes x {per_conn} per connection: {few} bytes retained with {cap} connections, {many} with {conns} (bound {bound})", kind);
+                st.sample(|| json!({"measured": detail}));
+                if many > bound {
+                    st.fail(Fail::new(format!("{:?}-pool:{:?}:retained-memory-exceeds-per-worker-capacity", kind, shape), detail), json!({"capacity": cap, "workers": workers, "batch": batch}));
+                }
+            }
+        },
+    );
+}
+
 pub fn replay(ctx: &Ctx, _sub: &str, _input: &serde_json::Value) -> Result<(), Fail> {
     let _ = ctx;
     Err(fail!("bad-replay", "C11 histories are deterministic functions of (analyzer, shape, N): re-run the check"))
